@@ -210,7 +210,15 @@ def explore(fn, job, *, timeout_ms=10000, path_timeout_s=30.0, max_paths=None, w
     try:
         eng.explore(wrapped, on_path)
     except Exception as e:
-        res['errors'].append('%s: %s\n%s' % (type(e).__name__, e, traceback.format_exc()[-1500:]))
+        try:
+            msg = str(e)
+        except BaseException:
+            msg = '<message holds a symbolic value: %r>' % (getattr(e, 'args', None),)
+        try:
+            tb = traceback.format_exc()[-1500:]
+        except BaseException:
+            tb = ''.join(traceback.format_tb(e.__traceback__))[-1500:]
+        res['errors'].append('%s: %s\n%s' % (type(e).__name__, msg, tb))
     res['stats'] = eng.stats()
     res['wall_s'] = round(time.time() - t0, 2)
     res['functions'] = sorted(funcs)
@@ -324,6 +332,7 @@ def merge_stats(results):
         for k in tot:
             tot[k] += st.get(k, 0)
         for reason, n in st.get('inconclusive_paths', []):
+            reason = '%s [job %s]' % (reason, r.get('job'))
             inconc[reason] = inconc.get(reason, 0) + n
         if st.get('budget_exhausted'):
             budget.append(r['job'])
